@@ -17,7 +17,7 @@ package stringset
 //@ func Set.Copy
 //@   ensures same: forall x string :: x in result <==> x in s
 //@   ensures size: len(result) == len(s)
-//@   ensures isfresh: fresh(result)
+//@   ensures isfresh: fresh(result) && result != nil
 //@   loop 0 invariant members: forall x string :: x in c <==> seen0(x)
 //@   loop 0 invariant count: len(c) == nseen0
 //@   loop 0 invariant fresh_c: fresh(c) && c != s
